@@ -11,6 +11,7 @@ Require Import ZArith List Bool.
 Require Import BFL.Ops BFL.Density BFL.C01_Model.
 Require Import BFL.C12_Model BFL.C12_Proofs BFL.C12_Sym BFL.C12_ProofsSym BFL.C12_KFInst BFL.C12_ProofsKF.
 Require BFL.C08_Model BFL.C12_GPFInst.
+Require Import BFL.C12_Payload BFL.C12_Struct.
 Import ListNotations.
 
 Section C12.
@@ -394,6 +395,162 @@ Theorem C12_gpf_no_partial_update (Mn Cv Wt Sh Sx Y X YP NU RC LK RNG GS : Type)
   length (snd o) = length (snd pred) /\ (forall i d, nth i (snd o) d = nth i (snd pred) d).
 Proof. exact (gpf_no_partial_update Mn Cv Wt Sh Sx Y X YP NU RC LK RNG GS st_px gl_dens z gpf_sample gpf_wupd gc lm p mm pred out st). Qed.
 
+(* the same for the unscented, serial unscented and bootstrap corrections *)
+Theorem C12_ukf_no_partial_update (Mn Cv Wt Sh Y X YP NU RC PM PXY : Type)
+        (sigma_of : list (Mn * Cv * Wt) * Sh -> X) ut_moments (pm_default : PM) (pxy_empty : PXY) pm_add_noise ukf_augment pm_mean ukf_upd
+        (additive : bool) (p : pattern) (mm : mmodel Y X YP NU RC) pred out (st : ukf_state NU PM) :
+  fails_any p sites3 = true ->
+  let o := r_out (ukf_step sigma_of ut_moments pm_default pxy_empty pm_add_noise ukf_augment pm_mean ukf_upd additive (inject p mm) pred out st) in
+  length (fst o) = length (fst pred) /\ snd o = snd pred /\
+  forall i d, fst (fst (nth i (fst o) d)) = fst (fst (nth i (fst pred) d)) /\
+              snd (fst (nth i (fst o) d)) = snd (fst (nth i (fst pred) d)) /\
+              snd (nth i (fst o) d) = snd (nth i (fst pred) d).
+Proof. exact (ukf_no_partial_update Mn Cv Wt Sh Y X YP NU RC PM PXY sigma_of ut_moments pm_default pxy_empty pm_add_noise ukf_augment pm_mean ukf_upd additive p mm pred out st). Qed.
+
+Theorem C12_sukf_no_partial_update (Mn Cv Wt Sh Y X YP NU RC : Type)
+        (sigma_of : list (Mn * Cv * Wt) * Sh -> X) sukf_pred_mean sukf_upd
+        (sub_ok : bool) ncalls (p : pattern) (mm : mmodel Y X YP NU RC) pred out (st : sukf_state YP NU) :
+  fails_any p sites3 = true \/ sub_ok = false ->
+  let o := r_out (sukf_step sigma_of sukf_pred_mean sukf_upd sub_ok ncalls (inject p mm) pred out st) in
+  length (fst o) = length (fst pred) /\ snd o = snd pred /\
+  forall i d, fst (fst (nth i (fst o) d)) = fst (fst (nth i (fst pred) d)) /\
+              snd (fst (nth i (fst o) d)) = snd (fst (nth i (fst pred) d)) /\
+              snd (nth i (fst o) d) = snd (nth i (fst pred) d).
+Proof. exact (sukf_no_partial_update Mn Cv Wt Sh Y X YP NU RC sigma_of sukf_pred_mean sukf_upd sub_ok ncalls p mm pred out st). Qed.
+
+Theorem C12_bootstrap_no_partial_update (Mn Cv Wt Sh Sx Y X YP NU RC LK : Type)
+        st_px gl_dens (z : LK) boot_wupd (lm : likmodel (list Sx) LK) (p : pattern)
+        (mm : mmodel Y X YP NU RC) (pred out : pset (list (Mn * Cv * Wt) * Sh) (list Sx)) (st : pf_state LK) :
+  lik_fails _ _ lm p = true ->
+  let o := r_out (boot_step st_px gl_dens z boot_wupd (inject_lik z p lm) (inject p mm) pred out st) in
+  length (fst (fst o)) = length (fst (fst pred)) /\ snd (fst o) = snd (fst pred) /\
+  (forall i d, fst (fst (nth i (fst (fst o)) d)) = fst (fst (nth i (fst (fst pred)) d)) /\
+               snd (fst (nth i (fst (fst o)) d)) = snd (fst (nth i (fst (fst pred)) d)) /\
+               snd (nth i (fst (fst o)) d) = snd (nth i (fst (fst pred)) d)) /\
+  length (snd o) = length (snd pred) /\ (forall i d, nth i (snd o) d = nth i (snd pred) d).
+Proof. exact (boot_no_partial_update Mn Cv Wt Sh Sx Y X YP NU RC LK st_px gl_dens z boot_wupd lm p mm pred out st). Qed.
+
+(* ================= flags AND payloads (C12_Payload) =================
+   The sensor interface returns a validity flag and a payload (bfl::Data / MatrixXd / VectorXd).  The steps below are
+   the same code transcribed with flags, payloads, any_casts in their order, in an exception monad (Throw = bad_any_cast
+   escapes correct()).  `*_payload_step_is_skeleton`: when the payloads that come with a TRUE flag at the arguments of this
+   very call are matrices, the payload-level step returns normally and IS the option-level skeleton above (applied to the
+   view "false flag = None"), so every theorem above is a theorem about it.  `*_payload_never_read_on_failure`: when a
+   call the class honours reports unavailability the step returns normally with the predicted belief and no likelihood,
+   with NO premise on any payload: what accompanies a false flag is never cast and never read. *)
+Section C12_payload.
+Variables G St Y X YP NU RC PY PM PXY LK RNG GS : Type.
+Notation rmodel := (rmodel Y X YP NU RC).
+Variable kf_px : G -> X.
+Variable kf_upd : G -> NU -> RC -> G -> G * PY.
+Variable sigma_of : G -> X.
+Variable ut_moments : G -> YP -> PM * PXY.
+Variable pm_default : PM.
+Variable pxy_empty : PXY.
+Variable pm_add_noise : PM -> RC -> PM.
+Variable ukf_augment : G -> RC -> G.
+Variable pm_mean : PM -> YP.
+Variable ukf_upd : G -> PM -> PXY -> NU -> G -> G.
+Variable sukf_pred_mean : YP -> YP.
+Variable sukf_upd : G -> X -> YP -> NU -> RC -> G -> G * YP.
+Variable st_px : St -> X.
+Variable gl_dens : NU -> RC -> LK.
+Variable lk_zero1 : LK.
+Variable boot_wupd : G -> LK -> G.
+Variable gpf_sample : RNG -> G -> St -> St * RNG.
+Variable gpf_wupd : pset G St -> LK -> pset G St -> G.
+
+Notation KFr := (kf_step_raw G Y X YP NU RC PY kf_px kf_upd).
+Notation UKFr := (ukf_step_raw G Y X YP NU RC PM PXY sigma_of ut_moments pm_default pxy_empty pm_add_noise ukf_augment pm_mean ukf_upd).
+Notation SUKFr := (sukf_step_raw G Y X YP NU RC sigma_of sukf_pred_mean sukf_upd).
+Notation GLr := (gl_likelihood_raw St Y X YP NU RC LK st_px gl_dens).
+Notation BOOTr := (boot_step_raw G St Y X YP NU RC LK st_px gl_dens lk_zero1 boot_wupd).
+Notation GPFr := (gpf_step_raw G St Y X YP NU RC LK RNG GS st_px gl_dens lk_zero1 gpf_sample gpf_wupd).
+
+Theorem C12_kf_payload_step_is_skeleton (rm : rmodel) (pred out : G) st :
+  (fst (rm_innovation _ _ _ _ _ rm (snd (rm_predicted _ _ _ _ _ rm (kf_px pred))) (snd (rm_measure _ _ _ _ _ rm))) = true ->
+   cast (snd (rm_innovation _ _ _ _ _ rm (snd (rm_predicted _ _ _ _ _ rm (kf_px pred))) (snd (rm_measure _ _ _ _ _ rm)))) <> None) ->
+  KFr rm pred out st = Ok (kf_step kf_px kf_upd (kf_view Y X YP NU RC rm) pred out st).
+Proof. exact (kf_raw_is_skeleton G Y X YP NU RC PY kf_px kf_upd rm pred out st). Qed.
+
+Theorem C12_kf_payload_never_read_on_failure (rm : rmodel) (pred out : G) st :
+  kf_fails_raw G Y X YP NU RC kf_px rm pred ->
+  exists l, KFr rm pred out st = Ok (mkRes pred (mkKfSt None (kf_py st)) l).
+Proof. exact (kf_raw_failure G Y X YP NU RC PY kf_px kf_upd rm pred out st). Qed.
+
+Theorem C12_ukf_payload_step_is_skeleton (additive : bool) (rm : rmodel) (pred out : G) st :
+  ukf_well_typed G Y X YP NU RC PM PXY sigma_of ut_moments pm_add_noise ukf_augment pm_mean additive rm pred ->
+  UKFr additive rm pred out st =
+  Ok (ukf_step sigma_of ut_moments pm_default pxy_empty pm_add_noise ukf_augment pm_mean ukf_upd additive (u_view Y X YP NU RC rm) pred out st).
+Proof. exact (ukf_raw_is_skeleton G Y X YP NU RC PM PXY sigma_of ut_moments pm_default pxy_empty pm_add_noise ukf_augment pm_mean ukf_upd additive rm pred out st). Qed.
+
+Theorem C12_ukf_payload_never_read_on_failure (additive : bool) (rm : rmodel) (pred out : G) st :
+  ukf_fails_raw G Y X YP NU RC PM PXY sigma_of ut_moments pm_add_noise ukf_augment pm_mean additive rm pred ->
+  exists pm l, UKFr additive rm pred out st = Ok (mkRes pred (mkUkfSt None pm) l).
+Proof. exact (ukf_raw_failure G Y X YP NU RC PM PXY sigma_of ut_moments pm_default pxy_empty pm_add_noise ukf_augment pm_mean ukf_upd additive rm pred out st). Qed.
+
+Theorem C12_sukf_payload_step_is_skeleton (sub_ok : bool) ncalls (rm : rmodel) (pred out : G) st :
+  sukf_well_typed G Y X YP NU RC sigma_of sukf_pred_mean rm pred ->
+  SUKFr sub_ok ncalls rm pred out st = Ok (sukf_step sigma_of sukf_pred_mean sukf_upd sub_ok ncalls (u_view Y X YP NU RC rm) pred out st).
+Proof. exact (sukf_raw_is_skeleton G Y X YP NU RC sigma_of sukf_pred_mean sukf_upd sub_ok ncalls rm pred out st). Qed.
+
+Theorem C12_sukf_payload_never_read_on_failure (sub_ok : bool) ncalls (rm : rmodel) (pred out : G) st :
+  sukf_fails_raw G Y X YP NU RC sigma_of sukf_pred_mean sub_ok rm pred ->
+  exists prop l, SUKFr sub_ok ncalls rm pred out st = Ok (mkRes pred (mkSukfSt None prop) l).
+Proof. exact (sukf_raw_failure G Y X YP NU RC sigma_of sukf_pred_mean sukf_upd sub_ok ncalls rm pred out st). Qed.
+
+Theorem C12_likelihood_payload_is_skeleton (rm : rmodel) (s : St) :
+  gl_well_typed St Y X YP NU RC st_px rm s ->
+  GLr rm s = Ok (gl_likelihood st_px gl_dens (gl_view Y X YP NU RC rm) s).
+Proof. exact (gl_raw_is_skeleton St Y X YP NU RC LK st_px gl_dens rm s). Qed.
+
+(* "reports failure rather than a value": and does not throw either *)
+Theorem C12_likelihood_payload_reports_failure (rm : rmodel) (s : St) :
+  gl_fails_raw St Y X YP NU RC st_px rm s -> exists l, GLr rm s = Ok (None, l).
+Proof. exact (gl_raw_failure St Y X YP NU RC LK st_px gl_dens rm s). Qed.
+
+Theorem C12_bootstrap_payload_step_is_skeleton (lm : likmodel St LK) (rm : rmodel) (pred out : pset G St) st :
+  (lm = LGauss -> gl_well_typed St Y X YP NU RC st_px rm (snd pred)) ->
+  BOOTr lm rm pred out st = Ok (boot_step st_px gl_dens lk_zero1 boot_wupd lm (gl_view Y X YP NU RC rm) pred out st).
+Proof. exact (boot_raw_is_skeleton G St Y X YP NU RC LK st_px gl_dens lk_zero1 boot_wupd lm rm pred out st). Qed.
+
+(* whatever vector a failing user likelihood hands back next to its false flag *)
+Theorem C12_bootstrap_payload_failure_custom (f : St -> bool * LK) (rm : rmodel) (pred out : pset G St) st :
+  fst (f (snd pred)) = false ->
+  BOOTr (LCustom f) rm pred out st = Ok (mkRes pred (pf_state_of (f (snd pred))) [Likelihood]).
+Proof. exact (boot_raw_failure_custom G St Y X YP NU RC LK st_px gl_dens lk_zero1 boot_wupd f rm pred out st). Qed.
+
+Theorem C12_bootstrap_payload_failure_gauss (rm : rmodel) (pred out : pset G St) st :
+  gl_fails_raw St Y X YP NU RC st_px rm (snd pred) ->
+  exists l, BOOTr LGauss rm pred out st = Ok (mkRes pred (mkPfSt false lk_zero1) l).
+Proof. exact (boot_raw_failure_gauss G St Y X YP NU RC LK st_px gl_dens lk_zero1 boot_wupd rm pred out st). Qed.
+
+Theorem C12_gpf_payload_step_is_skeleton (gc : G -> G -> GS -> result G GS) (lm : likmodel St LK) (rm : rmodel)
+        (pred out : pset G St) st :
+  (lm = LGauss -> gl_well_typed St Y X YP NU RC st_px rm (gpf_states _ _ _ _ _ gpf_sample gc pred out st)) ->
+  GPFr (fun a b s => Ok (gc a b s)) lm rm pred out st =
+  Ok (gpf_step st_px gl_dens lk_zero1 gpf_sample gpf_wupd gc lm (gl_view Y X YP NU RC rm) pred out st).
+Proof. exact (gpf_raw_is_skeleton G St Y X YP NU RC LK RNG GS st_px gl_dens lk_zero1 gpf_sample gpf_wupd gc lm rm pred out st). Qed.
+
+(* any wrapped correction that returned normally (it may have thrown instead: then so does the step) *)
+Theorem C12_gpf_payload_failure (gc : G -> G -> GS -> exn (result G GS)) (lm : likmodel St LK) (rm : rmodel)
+        (pred out : pset G St) st r :
+  gc (fst pred) (fst out) (g_inner st) = Ok r ->
+  let states := fst (gpf_sample (g_rng st) (r_out r) (snd out)) in
+  match lm with LGauss => gl_fails_raw St Y X YP NU RC st_px rm states | LCustom f => fst (f states) = false end ->
+  exists st' l, GPFr gc lm rm pred out st = Ok (mkRes pred st' l) /\ pf_valid (g_pf st') = false.
+Proof. exact (gpf_raw_failure G St Y X YP NU RC LK RNG GS st_px gl_dens lk_zero1 gpf_sample gpf_wupd gc lm rm pred out st r). Qed.
+End C12_payload.
+
+(* the order matters: the transcription of seeded change C12-r5 (cast the innovation, THEN test its flag) ends with an
+   exception on (false, empty Data), where the transcription of the code returns the predicted belief *)
+Theorem C12_cast_before_flag_refuted :
+  kf_fails_raw unit unit unit unit unit unit (fun _ => tt) r5_sensor tt /\
+  kf_step_cast_before_flag unit unit unit unit unit unit unit (fun _ => tt) (fun g _ _ _ => (g, tt)) r5_sensor tt tt (mkKfSt None tt) = Throw /\
+  kf_step_raw unit unit unit unit unit unit unit (fun _ => tt) (fun g _ _ _ => (g, tt)) r5_sensor tt tt (mkKfSt None tt)
+    = Ok (mkRes tt (mkKfSt None tt) [Measure; Predicted; Innovation]).
+Proof. exact kf_cast_before_flag_refuted. Qed.
+
 (* ================= the fault model and the algebraic model are one definition ================= *)
 (* the KF skeleton, instantiated with C01's numerical routines over ANY MatOps instance, under no_fault,
    is C01's kf_correct (components, innovations, measurement covariances); the weights / shape part W of
@@ -554,6 +711,23 @@ Print Assumptions C12_skipped_correction_makes_no_call.
 Print Assumptions C12_whole_object_is_componentwise.
 Print Assumptions C12_kf_no_partial_update.
 Print Assumptions C12_gpf_no_partial_update.
+Print Assumptions C12_ukf_no_partial_update.
+Print Assumptions C12_sukf_no_partial_update.
+Print Assumptions C12_bootstrap_no_partial_update.
+Print Assumptions C12_kf_payload_step_is_skeleton.
+Print Assumptions C12_kf_payload_never_read_on_failure.
+Print Assumptions C12_ukf_payload_step_is_skeleton.
+Print Assumptions C12_ukf_payload_never_read_on_failure.
+Print Assumptions C12_sukf_payload_step_is_skeleton.
+Print Assumptions C12_sukf_payload_never_read_on_failure.
+Print Assumptions C12_likelihood_payload_is_skeleton.
+Print Assumptions C12_likelihood_payload_reports_failure.
+Print Assumptions C12_bootstrap_payload_step_is_skeleton.
+Print Assumptions C12_bootstrap_payload_failure_custom.
+Print Assumptions C12_bootstrap_payload_failure_gauss.
+Print Assumptions C12_gpf_payload_step_is_skeleton.
+Print Assumptions C12_gpf_payload_failure.
+Print Assumptions C12_cast_before_flag_refuted.
 Print Assumptions C12_no_fault_kf_is_C01.
 Print Assumptions C12_no_fault_kf_likelihood_is_C01.
 Print Assumptions C12_kf_numerical_instance_identity.
